@@ -55,8 +55,12 @@ bool duplicateString(std::string& bytes) {
 int cmdTables(int argc, char** argv) {
 	if (argc < 2) return 2;
 	Out out(argv[1]);
-	for (auto& f : sampleFiles()) {
-		std::string bytes = readFile(samplePath(f));
+	auto inputs = sampleFiles();
+	// animation files (no node at all): built through the API, no sample is one
+	inputs.push_back("built:animation:SSE");
+	inputs.push_back("built:animation:FO4");
+	for (auto& f : inputs) {
+		std::string bytes = inputBytes(f);
 		HeaderInfo h = parseHeader(bytes);
 		if (!h.ok || !h.hasSizes) continue;
 		NifFile probe;
@@ -79,7 +83,7 @@ int cmdRun(int argc, char** argv) {
 		cases.size(), outPath, 120,
 		[&](size_t k, std::string& out) {
 			JV c = jparse(cases[k]);
-			std::string bytes = readFile(samplePath(c["file"].s));
+			std::string bytes = inputBytes(c["file"].s);
 			std::vector<std::string> U;
 			for (auto& t : c["U"].a) U.push_back(t.s);
 			if (!relabel(bytes, U)) return;
@@ -90,7 +94,7 @@ int cmdRun(int argc, char** argv) {
 			const char* variants[] = {"plain", "edited", "copied", "assigned", "duplicate-strings", "zero-sized-unknown-only", "shape-order-requested",
 									  "long-type-name", "forward-only-stream"};
 			const std::string original = bytes;
-			const std::string pristine = readFile(samplePath(c["file"].s));
+			const std::string pristine = inputBytes(c["file"].s);
 			for (int vi = 0; vi < 9; vi++)
 				for (int def = 0; def < 2; def++) {
 					if (vi >= 2 && ((k + def) % 2)) continue; // copies: alternate the save option to bound the work
